@@ -1,6 +1,6 @@
 """C15 - equality and ordering helpers agree with content."""
 import itertools
-from vlib import Case, hx, ALLTYPES, STRING, BINARY, FIXED, rand_array, rand_elem, obj_line
+from vlib import Case, hx, ALLTYPES, STRING, BINARY, FIXED, rand_array, rand_elem, obj_line, obj_dump
 
 LEVEL = "proof"
 RULE = ("object pairs/triples from a pool (all types and counts, equal-length elements that differ, prefixes, empty elements, empty "
@@ -43,11 +43,17 @@ def cases(rng, tier):
         n = len(pool)
         lines.append("ocopy %d 1" % (n + 1)); pool.append(pool[0]); n += 1
         pairs = [(i, j) for i in range(n) for j in range(n)]
+        dstart = len(lines)
+        lines += ["odump %d" % (i + 1) for i in range(n)]     # what create / copy kept: stated lengths, all bytes
         start = len(lines)
         lines += ["oeq %d %d" % (i + 1, j + 1) for (i, j) in pairs]
 
-        def oracle(c, pool=pool, pairs=pairs, start=start):
+        def oracle(c, pool=pool, pairs=pairs, start=start, dstart=dstart):
             f = []
+            for i, (t, el) in enumerate(pool):
+                want = obj_dump(t, el)
+                if c.val(dstart + i + 1) != want:
+                    f.append("object %d created from %s reads back as %s" % (i + 1, want[:80], (c.val(dstart + i + 1) or "")[:80]))
             for k, (i, j) in enumerate(pairs):
                 want = "1" if (pool[i][0] == pool[j][0] and pool[i][1] == pool[j][1]) else "0"
                 got = c.val(start + k + 1)
